@@ -40,13 +40,13 @@ package routing
 //@ loop 0 invariant -1 <= rangeindex && rangeindex < len(route.Path) && forall j in 0..rangeindex+1: route.Path[j] != t.localID
 //@ loop 1 invariant -1 <= rangeindex && rangeindex < len(existing) && forall j in 0..rangeindex+1: existing[j].OriginAgent != route.OriginAgent
 //@ ensures[C10] route != nil && route.Network != nil && (exists j in 0..len(route.Path): old(route.Path[j]) == t.localID) ==> !result
-//@ ensures result ==> route != nil && route.Network != nil
 //@ ensures[C10] route != nil && route.Network != nil && (exists j in 0..len(route.Path): old(route.Path[j]) == t.localID) ==> t.routes == old(t.routes) && len(t.routes[netKey(route.Network)]) == old(len(t.routes[netKey(route.Network)]))
 //@ ensures[C08,C10] result ==> forall a in 0..len(t.routes[k]): forall b in a..len(t.routes[k]): t.routes[k][a].Metric <= t.routes[k][b].Metric
 //@ ensures[C10,C13,C15] result ==> exists j in 0..len(t.routes[k]): t.routes[k][j].OriginAgent == route.OriginAgent && t.routes[k][j].Metric == route.Metric && t.routes[k][j].NextHop == route.NextHop && t.routes[k][j].Sequence == route.Sequence && len(t.routes[k][j].Path) == len(route.Path)
 //@ at[C10] call (*Route).Clone#0 assert r.OriginAgent == route.OriginAgent && existing[i] == r && (forall j in 0..i: existing[j].OriginAgent != route.OriginAgent)
 //@ at[C10] call (*Route).Clone#0 assert route.Sequence > r.Sequence || (route.Sequence == r.Sequence && route.Metric < r.Metric)
 //@ at[C10] call (*Route).Clone#1 assert forall j in 0..len(existing): existing[j].OriginAgent != route.OriginAgent
+//@ ensures result ==> route != nil && route.Network != nil
 //@ note update rule: the first Clone is the replacement of the first stored entry r of the same origin and happens only for a newer sequence or an equal sequence with a strictly lower metric; the second Clone is the insertion, reached only when no stored entry has that origin
 
 //@ func (*Table).lookupUnlocked
